@@ -30,5 +30,7 @@ Definition dispatch (v : val) : val :=
   | VL [VN 1900; a] => run_c19 a
   | VL [VN 1600; a] => run_c16 a
   | VL [VN 500; a] => run_c05_dropbox a
+  | VL [VN 501; a] => run_c05_yandex a
+  | VL [VN 502; a] => run_c05_google a
   | _ => bad_input
   end.
